@@ -525,6 +525,18 @@ fn sweep_cases(seed: u64, tier: &str, bins: &Binaries, scratch: Option<&str>) ->
                 out.push(Planned { case: c, stratum: "sweep-stdin-kinds" });
             }
         }
+        // what the file claims to be (`grex -f <(cmd)` hands over a FIFO, `-f /dev/...` a device): it is read all the same
+        for kind in [2u8, 3] {
+            for ch in ["file", "file-via-stdin", "probe"] {
+                for crlf in [false, true] {
+                    let content = frame(&lines, if crlf { 2 } else { 1 }, crlf, &mut rng);
+                    let mut c = if ch == "probe" { make_probe_case(&content, &busy, &mut rng) } else { make_case(ch, &lines, &content, &busy, &mut rng, true) };
+                    c.file_kind = kind;
+                    c.note = format!("sweep/e3 the file reports kind {} ({})", kind, if kind == 2 { "fifo" } else { "character device" });
+                    out.push(Planned { case: c, stratum: "sweep-file-kinds" });
+                }
+            }
+        }
         // stdin is a regular file of which a first part was consumed before the program started (`{ read x; grex -; } < file`)
         for ch in ["stdin", "file-via-stdin"] {
             let mut c = make_case(ch, &lines, &content, &busy, &mut rng, true);
@@ -717,6 +729,9 @@ fn random_case(rng: &mut Rng) -> Planned {
             }
             if rng.chance(1, 5) {
                 c.relative_path = true;
+            }
+            if rng.chance(1, 8) && c.file_mode == FileMode::Memfd {
+                c.file_kind = *rng.pick(&[2u8, 3]);
             }
             if rng.chance(1, 150) && c.stdin.len() + c.file.len() < 4096 && lines.iter().all(|l| l.len() < 64) && lines.len() < 64 {
                 c.rlimit_as_mb = *rng.pick(&[96u64, 160, 256]);
@@ -1192,7 +1207,7 @@ fn mode_run(args: &[String]) -> i32 {
         *expect_kinds.entry(ek).or_insert(0) += 1;
         let nontriv = !d.obs.fired.is_empty() || d.obs.reads_r0 + d.obs.reads_rf >= 2;
         if nontriv {
-            let fp = fnv1a(format!("{:?}|{:?}|{:?}|{:?}|{:?}|{:?}|{:?}", d.case.argv, d.case.stdin, d.case.file, d.case.events, d.case.dchunk, d.case.file_mode, (&d.case.env, d.case.tty_out, &d.case.file_name, d.case.stdin_kind, d.case.relative_path, &d.case.file_name_hex, d.case.rlimit_as_mb)).as_bytes());
+            let fp = fnv1a(format!("{:?}|{:?}|{:?}|{:?}|{:?}|{:?}|{:?}", d.case.argv, d.case.stdin, d.case.file, d.case.events, d.case.dchunk, d.case.file_mode, (&d.case.env, d.case.tty_out, &d.case.file_name, d.case.stdin_kind, d.case.file_kind, d.case.relative_path, &d.case.file_name_hex, d.case.rlimit_as_mb)).as_bytes());
             nontrivial.insert(fp);
         }
         // reach probes
